@@ -111,7 +111,7 @@ def initialize_dates_from_taxa(tree, taxa, tag='date'):
 
 
 def heights_from_branch_lengths(tree, eps=1.0e-6):
-    heights = torch.empty(2 * len(tree.taxon_namespace) - 1)
+    heights = torch.empty(2 * len(tree.taxon_namespace) - 1, dtype=torch.float64)
     for node in tree.postorder_node_iter():
         if node.is_leaf():
             heights[node.index] = node.date
